@@ -15,6 +15,12 @@ E5  the real library with long chains (n = 2500 and 4n = 10^4: `then` continuati
     scenario (crash, completed, deepest nesting of body entries, deepest InlineDepthGuard depth
     reported by the library hooks, deepest stack use), validated by TLC (InlineDepthObs.tla):
     nesting <= kMaxInlineDepth + 8 for n AND 4n, guard <= kMaxInlineDepth + 1, stack <= 160 KB.
+    The depth limit is a property of every STATE of the scheduling object, not only of the fault-free one:
+    pipeline_serial_fault_{p1,p2,open_p3} record an exception in the pipeline's task set (a stage throws)
+    while a serial stage is in the middle of a run of inline continuations with a large backlog that nobody
+    discards (the caller of pipeline() runs the chain itself / is inside a slow stage call / is parked in the
+    open generator's completion wait); model kind `pipeexc`.  The record says whether the fault was placed
+    (inj); a run in which it was not says nothing and is repeated.
 """
 import json
 import os
@@ -29,6 +35,7 @@ WHAT = 'dispenso-initiated inline execution nests to a depth independent of the 
 MODEL = {
     'then_immediate': ('immediate', 1), 'then_get_tail': ('futwait', 1), 'then_pool_saturated': ('pool', 1),
     'pipeline_serial_p1': ('pipe', 1), 'pipeline_serial_p2': ('pipe', 2), 'pipeline_serial_p0': ('graph', 0),
+    'pipeline_serial_fault_p1': ('pipeexc', 1), 'pipeline_serial_fault_p2': ('pipeexc', 2), 'pipeline_serial_fault_open_p3': ('pipeexc', 2),
     'graph_chain_p2': ('graph', 2), 'graph_comb_p1': ('cts', 1), 'graph_comb_p0': ('cts', 0),
     'cts_recursive_heavy_p1': ('cts', 1), 'cts_recursive_light_p1': ('cts', 1), 'cts_recursive_heavy_p0': ('cts', 0),
     'ts_recursive_p1': ('ts', 1), 'pool_recursive_p1': ('pool', 1), 'pool_recursive_p0': ('pool', 0),
@@ -47,7 +54,8 @@ def observe(ctx, exe, n, violators):
                               timeout=1500, report=(attempt == 1))
         res = ctx.validate(SPEC, 'InlineDepthObs.tla', 'InlineDepthObs.cfg', rec, WHAT, executions=tot.get('completed', 0),
                            label='observation records', report=(attempt == 1))
-        if tot and not res.violation:
+        not_placed = sorted(set(re.findall(r'<<"FAULT_NOT_PLACED", "(\w+)">>', res.out)))
+        if tot and not res.violation and not not_placed:
             break
     records = {}
     for line in open(rec):
@@ -56,6 +64,13 @@ def observe(ctx, exe, n, violators):
             records[r['sc']] = r
     ctx.sample({'records': [dict((k, r[k]) for k in ('sc', 'n1', 'n2', 'crash1', 'crash2', 'nest1', 'nest2', 'guard1', 'guard2', 'sb1', 'sb2'))
                             for r in list(records.values())[:16]]})
+    faults = dict((sc, r) for sc, r in records.items() if '_fault_' in sc)
+    ctx.cov['faults_placed'] = dict((sc, {'placed': [r['inj1'], r['inj2']], 'backlog_at_fault': [r['left1'], r['left2']],
+                                          'crash': [r['crash1'], r['crash2']]}) for sc, r in sorted(faults.items()))
+    if not_placed and not res.violation:
+        # within the bound, but the exception was not recorded mid-chain in two driver runs: the run is vacuous for the
+        # faulted state (never seen on an idle or loaded box; every wait of the scenario is a handshake with a time-out)
+        raise vlib.ToolError('fault scenarios did not reach the state they are for (exception recorded mid-chain, backlog >= n/3): %s' % not_placed)
     unbounded = set(re.findall(r'<<"UNBOUNDED", "(\w+)">>', res.out))
     ctx.cov['observed_unbounded'] = sorted(unbounded)
     for sc in sorted(unbounded):
@@ -67,8 +82,12 @@ def observe(ctx, exe, n, violators):
             # the model of the code says so too: the documented open finding
             ctx.violation('unguarded:%s' % sc, WHAT + ': %s nests once per link (model %s/p%d and real run: crash=%s/%s nest=%s/%s stack=%s/%s bytes)' % (
                 sc, model[0], model[1], r.get('crash1'), r.get('crash2'), r.get('nest1'), r.get('nest2'), r.get('sb1'), r.get('sb2')), path)
-        elif not res.violation:
-            ctx.violation('records:%s' % sc, WHAT + ': %s out of bound on the real code' % sc, path)
+        else:
+            # (when the validator's invariant has fired this names the scenario and the numbers of the same finding)
+            ctx.violation('records:%s' % sc, WHAT + ': %s out of bound on the real code%s (n=%s/%s: crash=%s/%s signal=%s/%s nest=%s/%s guard=%s/%s stack=%s/%s bytes)' % (
+                sc, ' - a serial pipeline stage keeps running its backlog as nested inline continuations after a stage has thrown' if '_fault_' in sc else '',
+                r.get('n1'), r.get('n2'), r.get('crash1'), r.get('crash2'), r.get('sig1'), r.get('sig2'), r.get('nest1'), r.get('nest2'),
+                r.get('guard1'), r.get('guard2'), r.get('sb1'), r.get('sb2')), path)
 
 
 def run(ctx):
@@ -99,4 +118,6 @@ def run(ctx):
         'nesting is measured from the stack pointers of body entries (over-counts by a few stale entries: slack 8), stack use at body entries',
         'x86-64 Linux, g++ -O1, 256 KB stacks for every thread (RLIMIT_STACK before exec)',
         'ThreadPool::scheduleBulk\'s own load-based inline loop is sequential per call and not modelled as a chain',
+        'faulted state: one fault per run (a sink call throws), placed by handshakes while a call of the serial stage nested 3..20 deep is held; '
+        'exceptions raised in other states of the chain (at a segment boundary the continuation is dropped by the cancelled set) are not chain scenarios',
     ]
